@@ -11,6 +11,7 @@ CONSTANTS
     MaxFields = 1
     Vias = {"direct"}
     Witness = FALSE
+    ReqPayloads = {}
 VIEW View
 PROPERTIES ValuesSurvive SchemaDerived
 CHECK_DEADLOCK FALSE
